@@ -1,5 +1,6 @@
 import Nsq.Proofs.MetaIdle
 import Nsq.Proofs.MetaCut
+import Nsq.Model.MetaOrder
 /-!
 # C06 — Hard-kill consistency of persisted metadata
 
@@ -216,6 +217,87 @@ theorem pause_ack_flag (cd : Codec β) (fix : Bool) (s : Sys β) (h : Reach cd f
 theorem second_instance_refused (cd : Codec β) (fix : Bool) (s : Sys β) (h : s.alive = true) :
     step cd fix s .start = some { s with lastStart := .locked } := by
   simp [step, h]
+
+/-! ### why the lock must be exclusive
+
+`file_is_latest_snapshot` rests on every `PersistMetadata` running under the nsqd *write* lock (in `Model.Meta` at most
+one `Persist` exists; tie `pause_persists_before_answer`, `notify_order`, `delete_persists_after_unlink`: `Lock`, not
+`RLock`). The abstraction below keeps only what matters for the order — snapshots taken, snapshots renamed — and
+lets several persists be in flight, as a shared (read) lock would. -/
+
+/-- With a shared lock the file goes back in time: persist 1 takes its document, persist 2 takes a newer one and
+renames it (its caller is answered), then persist 1 renames the older document over it. The renamed documents are
+no longer a subsequence of the taken ones and `nsqd.dat` (the last renamed) is not the latest snapshot. This is the
+schedule the harness steers on the real code (`race`, hook `meta.persist.afterSnapshot`). -/
+theorem shared_lock_breaks_file_order :
+    ∃ s, orun true {} [.snap 1, .snap 2, .rename 1, .rename 0] = some s ∧
+      ¬ s.renamed.Sublist s.taken ∧ s.renamed.getLast? ≠ s.taken.getLast? := by
+  refine ⟨{ taken := [1, 2], renamed := [2, 1], inflight := [] }, rfl, ?_, by decide⟩
+  decide
+
+/-- The same schedule is not a schedule under the exclusive lock (the second `snap` is not enabled)… -/
+example : orun false {} [.snap 1, .snap 2, .rename 1, .rename 0] = none := rfl
+
+/-- …and under the exclusive lock the order is kept along every schedule (the abstract counterpart of
+`file_is_latest_snapshot`). -/
+theorem exclusive_lock_keeps_file_order (steps : List OStep) (s : OSt)
+    (h : orun false {} steps = some s) :
+    s.renamed.Sublist s.taken ∧ s.inflight.length ≤ 1 ∧
+      (∀ d ∈ s.inflight, s.taken.getLast? = some d ∧ s.renamed.Sublist s.taken.dropLast) := by
+  suffices H : ∀ (steps : List OStep) (s0 s : OSt),
+      (s0.renamed.Sublist s0.taken ∧ s0.inflight.length ≤ 1 ∧
+        (∀ d ∈ s0.inflight, s0.taken.getLast? = some d ∧ s0.renamed.Sublist s0.taken.dropLast)) →
+      orun false s0 steps = some s →
+      (s.renamed.Sublist s.taken ∧ s.inflight.length ≤ 1 ∧
+        (∀ d ∈ s.inflight, s.taken.getLast? = some d ∧ s.renamed.Sublist s.taken.dropLast)) from
+    H steps {} s ⟨List.Sublist.refl _, by simp, by simp⟩ h
+  intro steps
+  induction steps with
+  | nil => intro s0 s h0 hr; simp [orun] at hr; subst hr; exact h0
+  | cons st rest ih =>
+    intro s0 s h0 hr
+    simp only [orun] at hr
+    split at hr
+    · simp at hr
+    · rename_i s1 h1
+      refine ih s1 s ?_ hr
+      obtain ⟨hsub, hlen, hin⟩ := h0
+      cases st with
+      | snap d =>
+        simp only [ostep] at h1
+        split at h1
+        · simp at h1
+        · rename_i hc
+          simp at hc
+          simp at h1; subst h1
+          refine ⟨hsub.trans (List.sublist_append_left _ _), by simp [hc], ?_⟩
+          intro x hx
+          simp [hc] at hx
+          subst hx
+          simpa using hsub
+      | rename i =>
+        simp only [ostep] at h1
+        split at h1
+        · simp at h1
+        · rename_i d hd
+          simp at h1; subst h1
+          have hmem : d ∈ s0.inflight := List.mem_of_getElem? hd
+          obtain ⟨hl, hs⟩ := hin d hmem
+          have hi : i = 0 := by
+            have := (List.getElem?_eq_some_iff.mp hd).1
+            omega
+          subst hi
+          have hnil : s0.inflight.eraseIdx 0 = [] := by
+            cases hf : s0.inflight with
+            | nil => rfl
+            | cons a t =>
+              rw [hf] at hlen
+              have : t = [] := by cases t with | nil => rfl | cons b u => simp at hlen
+              simp [this]
+          refine ⟨?_, by simp [hnil], by simp [hnil]⟩
+          show (s0.renamed ++ [d]).Sublist s0.taken
+          rw [eq_dropLast_of_getLast? _ _ hl]
+          exact List.Sublist.append hs (List.Sublist.refl _)
 
 /-! ### non-vacuity: a concrete schedule with a kill in the middle of a write, a restart, a pause -/
 
